@@ -286,7 +286,90 @@ func (x *X) undecidable(op Op, data []store.Series) bool {
 		x.Probe("order-sensitive-skipped")
 		return true
 	}
+	// An aggregation that adds floats (sum, avg, stddev, stdvar) is evaluated by the engine in
+	// another order than by the reference (shards, partitions); where the reference's own value
+	// of such a sub-expression moves by more than 1e-12 relative when its input order changes, it
+	// is ill-conditioned (stddev of nearly equal values) and what is built on it is only defined
+	// "up to floating-point summation order".
+	if sub := illConditioned(op, data); sub != "" {
+		x.R.Skipped = "ill-conditioned"
+		x.Probe("ill-conditioned-skipped")
+		return true
+	}
+	// The reference engine hints a narrower range than it reads for timestamp(v @ t offset o)
+	// (known finding C16): over a storage that honours the hints its own answer changes, so
+	// whichever engine evaluated the query (native or fallback) there is no single reference.
+	if ref.Res != nil && (x.C.Store.Trim || (op.Store != nil && op.Store.Trim)) {
+		tr := refOnLB(op, store.New(data, store.Cfg{Trim: true}, true), op.Eng.LookbackMs)
+		if tr.Res == nil || Compare(tr.Res, ref.Res, Tol).Kind != "" {
+			x.R.Skipped = "trim-sensitive"
+			x.Probe("trim-sensitive-skipped")
+			return true
+		}
+	}
 	return false
+}
+
+// illConditioned returns the first float-adding aggregation inside op.Q whose reference value
+// depends on input order by more than 1e-12 relative.
+func illConditioned(op Op, data []store.Series) string {
+	if len(data) < 2 {
+		return ""
+	}
+	expr, err := parser.ParseExpr(op.Q)
+	if err != nil {
+		return ""
+	}
+	var subs []string
+	parser.Inspect(expr, func(n parser.Node, _ []parser.Node) error {
+		if a, ok := n.(*parser.AggregateExpr); ok {
+			switch a.Op {
+			case parser.SUM, parser.AVG, parser.STDDEV, parser.STDVAR:
+				subs = append(subs, a.String())
+			}
+		}
+		return nil
+	})
+	for _, q := range subs {
+		sop := op
+		sop.Q = q
+		base := RefQuery(sop, data, op.Eng.LookbackMs)
+		if base.Res == nil {
+			continue
+		}
+		for _, seed := range []int64{11, 23, 37, 41, 53, 67, 79, 83} {
+			o := RefQueryPerm(sop, data, op.Eng.LookbackMs, seed)
+			if o.Res == nil || relSpread(o.Res, base.Res) > 1e-12 {
+				return q
+			}
+		}
+	}
+	return ""
+}
+
+// relSpread: the largest purely relative difference between corresponding values; +Inf when the
+// results differ in anything but values.
+func relSpread(a, b *Result) float64 {
+	if Compare(a, b, math.Inf(1)).Kind != "" {
+		return math.Inf(1)
+	}
+	bm := map[string][]Pt{}
+	for _, s := range b.Series {
+		bm[s.L] = s.Pts
+	}
+	worst := 0.0
+	for _, s := range a.Series {
+		for i, p := range s.Pts {
+			x, y := float64(p.V), float64(bm[s.L][i].V)
+			if x == y || math.IsNaN(x) || math.IsNaN(y) || math.IsInf(x, 0) || math.IsInf(y, 0) {
+				continue
+			}
+			if d := math.Abs(x-y) / math.Max(math.Abs(x), math.Abs(y)); d > worst {
+				worst = d
+			}
+		}
+	}
+	return worst
 }
 
 func orderSensitive(op Op, data []store.Series, base *Result) bool {
